@@ -54,6 +54,10 @@ def judge_parse(op, impl, model):
     # correspondence: textual identity (panic by class only)
     if km == "panic" and ki == "panic":
         return None
+    # the properties (C11, C17) name no error kind: which of several applicable errors a rejected string
+    # reports, and at which position inside the input, is the parser's choice
+    if km == "err" and ki == "err":
+        return None
     if impl != model:
         return "impl=%s model=%s" % (impl[:300], model[:300])
     return None
@@ -87,6 +91,7 @@ class C17(Prop):
     title = "pattern macro = run-time parser"
     thm_modules = ["PeliteModel.Thm.C11Parse", "PeliteModel.Thm.C17"]
     gens = gen_pattern.PARSE_GENS
+    named_errors = set()     # the statement names no parse error kind: errors agree by class
 
     def oracle(self, op, impl, model, spec):
         if not op.startswith("pat_parse"):
